@@ -66,6 +66,7 @@ let rec p_expr () : expr =
   match next () with
   | "i" -> EInt (z_of_dec (next ()))
   | "s" -> EStr (str_of_ocaml (unhex (next ())))
+  | "f" -> let _ = next () in let shown = unhex (next ()) in EFlt (str_of_ocaml shown, next () = "1")
   | "nil" -> ENil
   | "var" -> let sc = p_scope () in EVar (sc, n_of_int (next_int ()))
   | "x" -> let a = p_expr () in let i = p_expr () in EIdx (a, i)
@@ -106,7 +107,7 @@ let rec p_stmt () : stmt =
   | "cont" -> SContinue
   | "sw" -> let e = p_expr () in let k = next_int () in SSwitch (e, p_list p_switem k)
   | "blk" -> let k = next_int () in SBlock (p_list p_stmt k)
-  | "goto" -> SGoto (n_of_int (next_int ()))
+  | "goto" -> let f = n_of_int (next_int ()) in let k = next_int () in SGoto (f, p_list p_expr k)
   | "try" -> let b = p_stmt () in let k = next_int () in STry (b, p_list p_handler k)
   | "throw" -> let f = n_of_int (next_int ()) in let k = next_int () in SThrow (f, p_list p_expr k)
   | "pr" -> let k = next_int () in SPrint (p_list p_expr k)
@@ -147,15 +148,58 @@ let repr (g : glob) (v : value) : string =
   | VNil -> "nil"
   | VInt x -> "int " ^ dec_of_z x
   | VStr s -> "str " ^ escape (ocaml_of_str s)
+  | VFlt (s, _) -> "flt " ^ escape (ocaml_of_str s)
   | VArr p -> (match nth_opt g.g_heap (int_of_nat p) with Some (HArr l) -> Printf.sprintf "arr %d" (List.length l) | _ -> "arr ?")
   | VCArr p -> (match nth_opt g.g_heap (int_of_nat p) with Some (HCArr l) -> Printf.sprintf "carr %d" (List.length l) | _ -> "carr ?")
 
-let fuel = nat_of_int 60000
+(* the evaluator's fuel bounds the depth of its recursion; almost every program needs far less
+   than the small amount, the large one is only tried when the small one is exhausted *)
+let fuel_small = nat_of_int 2500
+let fuel_large = nat_of_int 60000
+
+exception Not_fragment
+let rec aexpr_of (e : expr) : aexpr =
+  match e with
+  | EInt v -> ALit v
+  | ENeg a -> ANeg (aexpr_of a)
+  | ECpl a -> ACpl (aexpr_of a)
+  | EBin (o, a, b) -> ABin (o, aexpr_of a, aexpr_of b)
+  | _ -> raise Not_fragment
+
+let binop_word (o : binop) : string =
+  match o with
+  | OAdd -> "add" | OSub -> "sub" | OMul -> "mul" | ODiv -> "div" | OMod -> "mod"
+  | OBand -> "band" | OBor -> "bor" | OBxor -> "bxor" | OShl -> "shl" | OShr -> "shr"
+  | OEq -> "eq" | ONe -> "ne" | OLt -> "lt" | OLe -> "le" | OGt -> "gt" | OGe -> "ge"
+
+let instr_word (i : instr) : string =
+  match i with
+  | IPush v -> let (t, p) = encode enc_table enc_default v in Printf.sprintf "I%s:%s" (dec_of_z t) (dec_of_z p)
+  | INeg -> "NEG"
+  | ICpl -> "CPL"
+  | IBin o -> binop_word o
+
+(* "cmp <expr tokens>": the code of the compiler model for a constant integer expression and its value *)
+let run_cmp (ws : string list) : unit =
+  toks := Array.of_list ws;
+  pos := 0;
+  (try
+     let a = aexpr_of (p_expr ()) in
+     Printf.printf "t %s\n" (String.concat " " (List.map instr_word (compile a)));
+     (match aeval a with
+      | Some z -> Printf.printf "v L0 int %s\n" (dec_of_z z)
+      | None -> print_string "v L0 none\n");
+     (match vm_run (compile a) [] with
+      | Some [z] -> Printf.printf "vm int %s\n" (dec_of_z z)
+      | _ -> print_string "vm none\n")
+   with Parse m -> Printf.printf "parse-error %s\n" m | Not_fragment -> print_string "parse-error not in the fragment\n")
 
 let run_case (id : string) (args : string list) (body : string list) : unit =
   Printf.printf "case %s\n" id;
-  let lits = List.filter (fun l -> match words l with "lit" :: _ -> true | _ -> false) body in
-  let progl = List.filter (fun l -> match words l with "lit" :: _ -> false | _ -> true) body in
+  let special l = match words l with "lit" :: _ -> true | "cmp" :: _ -> true | _ -> false in
+  let lits = List.filter special body in
+  let progl = List.filter (fun l -> not (special l)) body in
+  List.iter (fun l -> match words l with "cmp" :: ws -> run_cmp ws | _ -> ()) lits;
   List.iter (fun l -> match words l with
       | ["lit"; v] ->
         let z = z_of_dec v in
@@ -170,7 +214,10 @@ let run_case (id : string) (args : string list) (body : string list) : unit =
      | None -> ()
      | Some p ->
        let hargs = List.map (fun a -> VInt (z_of_dec a)) args in
-       (match run_program fuel p N0 hargs with
+       (* a program whose strings grow exponentially exhausts the evaluator's stack: dropped like any
+          other program the evaluator has no result for *)
+       (match (try (match run_program fuel_small p N0 hargs with Some r -> Some r | None -> run_program fuel_large p N0 hargs)
+               with Stack_overflow -> None | Out_of_memory -> None) with
         | None -> print_string "stuck\n"
         | Some (v, g) ->
           let out = String.concat "" (List.rev_map (fun l -> ocaml_of_str l ^ "\n") g.g_out) in
